@@ -17,11 +17,11 @@ BigThorough == {[n |-> 262144, c |-> 1], [n |-> 1048576, c |-> 7], [n |-> 419430
 BigDomain == {[kind |-> "big", n |-> b.n, c |-> b.c, pat |-> p, framed |-> FramedLen(b.n, b.c),
                chunks |-> NumChunks(b.n, b.c)] : b \in BigCases, p \in {"distinct", "framing"}}
 
-Domain == CASE Part = "chunk" -> ChunkCases
-            [] Part = "mutant" -> MutantCases
-            [] Part = "short" -> ShortCases
-            [] Part = "coding" -> CodingCases
-            [] Part = "nego" -> NegoCases
+Domain == CASE Part = "chunk" -> ChunkCases(MaxN, MaxC)
+            [] Part = "mutant" -> MutantCases(MutN, MutC)
+            [] Part = "short" -> ShortCases(ShortLen)
+            [] Part = "coding" -> CodingCases(Registered)
+            [] Part = "nego" -> NegoCases(MaxEntries)
             [] Part = "big" -> BigDomain
 
 Emit(cs) ==
